@@ -451,4 +451,182 @@ Proof.
   apply H.
 Qed.
 
+
+(* ------------------------------------------------------------------ *)
+(* the measure *)
+
+Definition pot (v : option (nat * bool)) (r : rspec) : nat :=
+  match v with
+  | None => 0
+  | Some (p, e) => 2 * (length (r_stages r) - p) + 1 + (if e then 0 else 1)
+  end.
+
+Fixpoint tsum (f : N -> option (nat * bool)) (l : list rspec) : nat :=
+  match l with
+  | [] => 0
+  | r :: t => pot (f (r_key r)) r + tsum f t
+  end.
+
+Definition pcrank (m : mem) : nat :=
+  match m_pc m with
+  | MDone => 1
+  | MCommit _ _ => 1
+  | MIdle => 8
+  | MClose 0 => 6
+  | MClose 1 => 5
+  | MClose _ => 4
+  | MBcast _ => 7
+  | MPublish _ => 6
+  | MInsert _ => 7
+  | MStep t r =>
+    match m_state m with
+    | SDefault => match t with TChain => 9 | _ => 3 end
+    | SCB => match t with TClose => 3 | _ => 9 end
+    | SWaiting => if r then 9 else 8
+    | _ => 9
+    end
+  end.
+
+Definition major (s : st) : nat :=
+  if d_full (dk s) then 0 else 10 * lvl (m_state (mm s)) + pcrank (mm s).
+
+Definition minor (s : st) : nat :=
+  3 * m_sigs (mm s) + 4 * tsum (m_res (mm s)) (sc_resolvers sc)
+  + (match m_pc (mm s) with MStep _ _ => 1 | _ => 0 end)
+  + (if m_userdone (mm s) then 0 else 1).
+
+Definition lexlt (s' s : st) : Prop :=
+  major s' < major s \/ (major s' = major s /\ minor s' < minor s).
+
+Lemma tsum_upd_notin : forall f k v l,
+  existsb (fun x => N.eqb (r_key x) k) l = false -> tsum (upd f k v) l = tsum f l.
+Proof.
+  induction l as [|a l IH]; simpl; intros H; [reflexivity|].
+  apply orb_false_iff in H. destruct H as [H1 H2].
+  unfold upd at 1. rewrite H1. rewrite IH by exact H2. reflexivity.
+Qed.
+
+Lemma tsum_upd : forall f k v l r, keys_nodup l = true -> In r l -> r_key r = k ->
+  tsum (upd f k v) l + pot (f k) r = tsum f l + pot v r.
+Proof.
+  induction l as [|a l IH]; simpl; intros r Hn Hin Hk; [contradiction|].
+  apply andb_true_iff in Hn. destruct Hn as [Hex Hn]. apply negb_true_iff in Hex.
+  destruct Hin as [->|Hin].
+  - rewrite Hk. rewrite upd_same. rewrite Hk in Hex.
+    rewrite tsum_upd_notin by exact Hex. lia.
+  - assert (Hne : r_key a <> k).
+    { intros E. assert (X : existsb (fun x => N.eqb (r_key x) (r_key a)) l = true).
+      { apply existsb_exists. exists r. split; auto. apply N.eqb_eq. congruence. }
+      congruence. }
+    rewrite upd_other by exact Hne. specialize (IH r Hn Hin Hk). lia.
+Qed.
+
+(* in every live state some enabled thread step decreases the measure *)
+Lemma idle_waiting : forall s, PInv s -> d_full (dk s) = false -> m_pc (mm s) = MIdle ->
+  negb (d_closed (dk s)) && negb (m_closedeliv (mm s)) &&
+    (negb (sc_userfc sc) || d_bcast (dk s)) = false ->
+  sc_userfc sc && negb (m_userdone (mm s)) && negb (d_closed (dk s)) = false ->
+  m_state (mm s) = SWaiting /\ d_closed (dk s) = true.
+Proof.
+  intros s I Hnf Epc E1 E2.
+  pose proof (q_cd s I) as Qcd. pose proof (q_ud s I) as Qud.
+  pose proof (q_early s I Hnf) as Qearly. pose proof (q_scb s I) as Qscb.
+  pose proof (q_late s I) as Qlate.
+  rewrite Epc in Qcd, Qud, Qearly. simpl in Qearly.
+  destruct (d_closed (dk s)) eqn:Ec.
+  - split; [|reflexivity].
+    destruct (q_noidle s I Epc) as [H|[H|H]]; auto;
+      rewrite H in Qearly; specialize (Qearly eq_refl eq_refl); discriminate.
+  - exfalso. simpl in E1, E2.
+    assert (Hcd : m_closedeliv (mm s) = false).
+    { destruct (m_closedeliv (mm s)); auto. destruct (Qcd eq_refl) as [?|[? ?]]; discriminate. }
+    rewrite Hcd in E1. simpl in E1. apply orb_false_iff in E1. destruct E1 as [E1a E1b].
+    apply negb_false_iff in E1a. rewrite E1a, andb_true_r in E2. simpl in E2.
+    apply negb_false_iff in E2.
+    destruct (q_noidle s I Epc) as [H|[H|H]].
+    + destruct (Qud E2) as [?|[?|?]]; try discriminate. contradiction.
+    + rewrite Qscb in E1b; [discriminate|]. left. exact H.
+    + rewrite H in Qlate. specialize (Qlate eq_refl). discriminate.
+Qed.
+
+
+Ltac meas Hnf := unfold lexlt, major, minor, pcrank; simpl; rewrite ?Hnf; simpl.
+
+Lemma dec : forall s, Inv2 sc s -> PInv s -> d_full (dk s) = false ->
+  exists t, lexlt (tstep sc s t) s.
+Proof.
+  intros s J I Hnf.
+  destruct (m_pc (mm s)) as [| |i|t r|a t|t|t|t] eqn:Epc.
+  - (* MIdle *)
+    destruct (negb (d_closed (dk s)) && negb (m_closedeliv (mm s)) &&
+              (negb (sc_userfc sc) || d_bcast (dk s))) eqn:E1.
+    { exists TMain. simpl. unfold main_step. rewrite Epc, E1.
+      destruct (sc_kind sc); left; meas Hnf; rewrite Epc; lia. }
+    destruct (sc_userfc sc && negb (m_userdone (mm s)) && negb (d_closed (dk s))) eqn:E2.
+    { exists TMain. simpl. unfold main_step. rewrite Epc, E1, E2.
+      assert (Hud : m_userdone (mm s) = false).
+      { destruct (m_userdone (mm s)); auto. rewrite andb_false_r in E2. discriminate. }
+      destruct (m_state (mm s)) eqn:Ems.
+      - left. meas Hnf. rewrite Epc, Ems. simpl. lia.
+      - right. meas Hnf. rewrite Epc, Ems, Hud. simpl. lia.
+      - right. meas Hnf. rewrite Epc, Ems, Hud. simpl. lia.
+      - right. meas Hnf. rewrite Epc, Ems, Hud. simpl. lia.
+      - right. meas Hnf. rewrite Epc, Ems, Hud. simpl. lia.
+      - right. meas Hnf. rewrite Epc, Ems, Hud. simpl. lia. }
+    destruct (idle_waiting s I Hnf Epc E1 E2) as [Hw Hcl].
+    destruct (m_sigs (mm s)) eqn:Es.
+    + (* a resolver goroutine must be live *)
+      destruct (q_wait s I Hw Epc Es) as (k & p & Hc).
+      assert (HL : launched (mm s)).
+      { left. split; [exact Hw|]. rewrite Epc. discriminate. }
+      pose proof (q_launch s I HL k p Hc) as Hm.
+      destruct (m_res (mm s) k) as [[p' e]|] eqn:Er; [|contradiction].
+      destruct (j_thr sc s J k p' e Er) as [Hfs Hcc].
+      destruct (find_spec sc k) as [r|] eqn:Hf; [|contradiction].
+      destruct (find_spec_in sc k r Hf) as [Hin Hkey].
+      pose proof (fun v => tsum_upd (m_res (mm s)) k v _ r (wf_nodup sc Hwf) Hin Hkey) as TS.
+      rewrite Er in TS. simpl in TS.
+      exists (TRes k). simpl. unfold res_step. rewrite Er, Hf.
+      destruct (nth_error (r_stages r) p') as [g|] eqn:Hn.
+      * assert (Hlt : p' < length (r_stages r)) by (apply nth_error_Some; congruence).
+        destruct e.
+        -- right. specialize (TS (Some (S p', false))). simpl in TS.
+           meas Hnf. rewrite Epc, Es. destruct (m_userdone (mm s)); lia.
+        -- right. specialize (TS (Some (p', true))). simpl in TS.
+           meas Hnf. rewrite Epc, Es. destruct (m_userdone (mm s)); lia.
+      * right. specialize (TS None). simpl in TS. destruct e.
+        all: meas Hnf; rewrite Epc, Es; destruct (m_userdone (mm s)); lia.
+    + exists TMain. simpl. unfold main_step. rewrite Epc, E1, E2, Es.
+      right. meas Hnf. rewrite Epc, Hw, Es. simpl. destruct (m_userdone (mm s)); lia.
+  - (* MDone *)
+    exists TFin. simpl. unfold fin_step. rewrite (q_done s I Epc Hnf).
+    left. meas Hnf. rewrite Epc. lia.
+  - (* MClose *)
+    exists TMain. simpl. unfold main_step. rewrite Epc.
+    destruct (q_mce s I i Epc) as [Hs|Hs];
+      destruct i as [|[|i]]; left; meas Hnf; rewrite Epc, Hs; simpl; lia.
+  - (* MStep *)
+    exists TMain. simpl. unfold main_step. rewrite Epc.
+    destruct (m_state (mm s)) eqn:Ems.
+    + destruct t; [destruct (d_cset (dk s) && sc_cs_acts sc)| |];
+        left; meas Hnf; rewrite Epc, Ems; simpl; lia.
+    + destruct t; left; meas Hnf; rewrite Epc, Ems; simpl; lia.
+    + destruct t; left; meas Hnf; rewrite Epc, Ems; simpl; lia.
+    + destruct (negb (d_res (dk s))); [|destruct (sc_empty sc)];
+        left; meas Hnf; rewrite Epc, Ems; simpl; lia.
+    + destruct (no_contracts sc (dk s)).
+      { left; meas Hnf; rewrite Epc, Ems; simpl; destruct r; lia. }
+      destruct r.
+      * left; meas Hnf; rewrite Epc, Ems; simpl; lia.
+      * right; meas Hnf; rewrite Epc, Ems; simpl; destruct (m_userdone (mm s)); lia.
+    + left; meas Hnf; rewrite Epc, Ems; simpl; lia.
+  - (* MCommit *)
+    exists TMain. simpl. unfold main_step. rewrite Epc.
+    pose proof (q_commit s I a t Epc) as Hlv.
+    left. meas Hnf. rewrite Epc. destruct a, t; simpl in *; lia.
+  - exists TMain. simpl. unfold main_step. rewrite Epc. left. meas Hnf. rewrite Epc. lia.
+  - exists TMain. simpl. unfold main_step. rewrite Epc. left. meas Hnf. rewrite Epc. lia.
+  - exists TMain. simpl. unfold main_step. rewrite Epc. left. meas Hnf. rewrite Epc. lia.
+Qed.
+
 End Progress.
